@@ -101,6 +101,9 @@ func short(d string) string {
 	return d
 }
 
+// EmptyID as Op.IDLit stands for the literal empty upload id (an empty IDLit means "the id of handle H").
+const EmptyID = "<empty-upload-id>"
+
 // Outcome is what the caller observed.
 type Outcome struct {
 	OK        bool     `json:"ok"`
@@ -353,7 +356,9 @@ func (e *Env) Exec(op *Op) *Outcome {
 		return e.newWriter(r.PushBlobChunked(ctx, op.Repo, op.Hint))
 	case "PushBlobChunkedResume":
 		id := op.IDLit
-		if id == "" {
+		if id == EmptyID {
+			id = ""
+		} else if id == "" {
 			e.mu.Lock()
 			if op.H < 0 || op.H >= len(e.IDs) {
 				e.mu.Unlock()
